@@ -1,4 +1,5 @@
 import RepeVerif.Lemmas.Registry
+import RepeVerif.Lemmas.RegistryRouter
 import RepeVerif.Gen.Registry
 /-!
 # C14 — The registry behaves as a JSON tree addressed by RFC 6901 pointers
@@ -22,11 +23,14 @@ clause → theorem
 * escape-normalised key; borrowed fast path not observable .. `canonical_key_fast_path`
 * malformed ⇒ InvalidPointer ⇒ MethodNotFound, no mutation ... `malformed_is_not_found`, `malformed_never_mutates`, `invalid_pointer_code`
 * write then read returns the value ......................... `read_after_write`
-* … and changes nothing at unrelated pointers ............... `write_frame`
+* … and changes nothing at unrelated pointers ............... `write_frame`, `write_frame_strong`
+* registrations and merges answer as the document would ...... `registration_reads_back`, `malformed_registration_rejected`
 * a root write merges the object's keys ..................... `root_write_merges`, `root_write_keeps_other_keys`, `root_never_callable`
 * an empty body never mutates ............................... `empty_body_never_mutates`
 * callable invoked exactly once, with the body, only at its key `call_exactly_once`
-* mounting only strips the prefix ........................... `mount_strips_only_prefix`, `mount_boundary`
+* mounting only strips the prefix ........................... `mount_strips_only_prefix`, `mount_boundary`,
+  `mount_handle_is_dispatch`, `mount_never_mutates_without_body`, `decode_body_cases`, `body_format_codes`,
+  `source_shape_facts`; composed with C07's router: `mount_rules_are_the_router_model`, `routed_request_is_dispatch`
 * single-section API calls are atomic (facts) ............... `lock_region_facts`, `atomic_ops_linearizable`
 * concurrent requests are serialised ........................ `dispatch_write_linearizable_partial` (always),
   `dispatch_linearizable` (full statement; applies when the extracted fact `recheckUnderWriteLock` is
@@ -190,6 +194,75 @@ theorem write_frame (r : Bool) (reg reg' : Reg) (p q : Ptr) (v w : J)
         | ok key => simp only [hq, hfr]
       · simp only [Reg.readValue, hq, hfr]
 
+/-- Frame at full strength: where the two pointers part the tokens only have to differ; they must not
+be the same array index only if the node at which they part IS an array (under an object `1` and `01`
+are different keys). -/
+theorem write_frame_strong (r : Bool) (reg reg' : Reg) (p q : Ptr) (v w : J)
+    (pre : List Tok) (t u : Tok) (ps qs : List Tok)
+    (hnc : reg.callableAt p = none)
+    (hp : parsePointer p = .ok (pre ++ t :: ps)) (hq : parsePointer q = .ok (pre ++ u :: qs))
+    (hne : t ≠ u)
+    (harr : ∀ a, resolveRef reg.root pre = .ok (.arr a) → ¬ ∃ i, parseUsize t = some i ∧ parseUsize u = some i)
+    (h : reg.dispatch r p (some v) = (reg', .ok w)) :
+    (reg'.dispatch r q none).2 = (reg.dispatch r q none).2 ∧ reg'.readValue q = reg.readValue q := by
+  rw [dispatch_some_of_not_callable r reg p v hnc] at h
+  have hfl := writeAt_log reg p v
+  rw [h] at hfl
+  unfold Reg.writeAt at h
+  rw [hp] at h
+  have hne' : pre ++ t :: ps ≠ [] := by simp
+  match hsegs : pre ++ t :: ps, hne', h with
+  | t0 :: ts0, _, h =>
+    simp only at h
+    cases hs : setPointer reg.root (t0 :: ts0) v with
+    | error e => simp [hs] at h
+    | ok root' =>
+      simp [hs] at h
+      obtain ⟨hreg, _⟩ := h
+      subst hreg
+      rw [← hsegs] at hs
+      have hfr := resolve_setPointer_frame' pre t u ps qs reg.root v root' hne harr hs
+      refine ⟨?_, ?_⟩
+      · simp only [Reg.dispatch, Reg.dispatchRead]
+        cases hk : canonicalKey q with
+        | error e => rfl
+        | ok key => simp only [hq, hfr]
+      · simp only [Reg.readValue, hq, hfr]
+
+/-- `register_value` at a non-root path: whatever was there, the value is read back at that path
+(missing or non-object ancestors having been made objects); `merge_at` at a non-root path succeeds only
+on an existing object, whose fields it extends (`root_write_keeps_other_keys` applies to `omerge`), and a
+failed merge changes nothing; malformed registration paths are refused without any change. -/
+theorem registration_reads_back (reg : Reg) (path : Ptr) (segs : List Tok)
+    (hs : parseRegistrationPath path = .ok segs) (hne : segs ≠ []) :
+    (∀ v p, parsePointer p = .ok segs →
+      (reg.registerValue path v).2 = unitOk ∧ (reg.registerValue path v).1.readValue p = .ok v) ∧
+    (∀ o, (∃ old, resolveRef reg.root segs = .ok (.obj old) ∧ (reg.mergeAt path o).2 = unitOk ∧
+            resolveRef (reg.mergeAt path o).1.root segs = .ok (.obj (omerge o old))) ∨
+          (∃ e, reg.mergeAt path o = (reg, .error e))) := by
+  match segs, hne with
+  | t :: ts, _ =>
+    constructor
+    · intro v p hp
+      simp only [Reg.registerValue, hs, Reg.readValue, hp]
+      exact ⟨trivial, resolve_regInsert reg.root (t :: ts) v (by simp)⟩
+    · intro o
+      simp only [Reg.mergeAt, hs]
+      cases hm : mergeAtPtr reg.root (t :: ts) o with
+      | error e => exact .inr ⟨e, rfl⟩
+      | ok root' =>
+        obtain ⟨old, h1, h2⟩ := resolve_mergeAtPtr reg.root root' (t :: ts) o hm
+        exact .inl ⟨old, h1, rfl, h2⟩
+
+theorem malformed_registration_rejected (reg : Reg) (path : Ptr) (e : RErr)
+    (h : parseRegistrationPath path = .error e) (v : J) (f : Fn) (o : Obj) :
+    reg.registerValue path v = (reg, .error e) ∧ reg.registerFunction path f = (reg, .error e) ∧
+    reg.mergeAt path o = (reg, .error e) := by
+  simp [Reg.registerValue, Reg.registerFunction, Reg.mergeAt, h]
+
+example : (parseRegistrationPath ['a', '~', '2']).toOption = none ∧
+    (parseRegistrationPath ['a', '/', 'b']).toOption = some [['a'], ['b']] := by decide
+
 example : ¬ sameSlot ['a'] ['b'] ∧ ¬ sameSlot ['1'] ['2'] ∧
     sameSlot ['0', '1'] ['+', '1'] := by
   have ea : parseUsize ['a'] = none := by decide
@@ -317,6 +390,122 @@ example : mountPointer [['/', 'a', 'p', 'i']] ['/', 'a', 'p', 'i', '/', 'a', '~'
     mountPointer [['/', 'a', 'p', 'i']] ['/', 'a', 'p', 'i', 'x'] = none ∧
     mountPointer [['a', 'p', 'i', '/']] ['/', 'a', 'p', 'i'] = some (some ['/']) := by decide
 
+/-! ### the mounted handler: `Registry::decode_body`, `RegisteredRegistry::handle` / `handle_with_ctx` -/
+
+/-- Shapes re-read from the source on every run (an unrecognised form gives `false` and breaks this):
+`parse_pointer` and `canonical_key` both refuse a non-empty pointer without leading `/`; the root write
+checks that the body is an object BEFORE `ensure_object_root` may replace the root; `decode_body` tests for
+the empty body first; `pointer_for` strips the prefix once (`strip_prefix`, `/` boundary); `handle` and
+`handle_with_ctx` are `pointer_for`, `decode_body`, one `dispatch`, in that order. -/
+theorem source_shape_facts :
+    Gen.Registry.parsePointerRequiresSlash = true ∧ Gen.Registry.canonicalKeyRequiresSlash = true ∧
+    Gen.Registry.rootWriteChecksBodyFirst = true ∧ Gen.Registry.decodeEmptyBodyFirst = true ∧
+    Gen.Registry.pointerForStripsOnce = true ∧ Gen.Registry.handleOrder = true := by decide
+
+/-- The format codes the model's `decodeBody` tests are constants.rs's `BodyFormat` discriminants; every
+body error of the registry is answered `InvalidBody` (4). -/
+theorem body_format_codes :
+    Gen.Registry.bodyFormats = [("RawBinary", fmtRaw), ("Beve", fmtBeve), ("Json", fmtJson), ("Utf8", fmtUtf8)] ∧
+    RErr.unsupportedBodyFormat.code Gen.Registry.registryErrorCode Gen.Registry.errorCodes = some 4 ∧
+    RErr.invalidUtf8.code Gen.Registry.registryErrorCode Gen.Registry.errorCodes = some 4 ∧
+    RErr.json.code Gen.Registry.registryErrorCode Gen.Registry.errorCodes = some 4 ∧
+    RErr.beve.code Gen.Registry.registryErrorCode Gen.Registry.errorCodes = some 4 ∧
+    RErr.rootWriteRequiresObject.code Gen.Registry.registryErrorCode Gen.Registry.errorCodes = some 4 ∧
+    lookupStr "InvalidBody" Gen.Registry.errorCodes = some 4 := by decide
+
+/-- `decode_body`: an empty body is "no body" under EVERY format code (so it is a read); raw bytes become
+an array of numbers; text becomes a string; an unknown format with a body is an error. -/
+theorem decode_body_cases (d : Decoders) (fmt : Nat) (body : Bytes) :
+    (body = [] → decodeBody d fmt body = .ok none) ∧
+    (body ≠ [] → fmt = fmtRaw → decodeBody d fmt body = .ok (some (.arr (body.map fun b => .num (toString b.toNat))))) ∧
+    (body ≠ [] → fmt = fmtUtf8 → ∀ s, d.utf8 body = some s → decodeBody d fmt body = .ok (some (.str s))) ∧
+    (body ≠ [] → fmt ≠ fmtRaw → fmt ≠ fmtBeve → fmt ≠ fmtJson → fmt ≠ fmtUtf8 →
+      decodeBody d fmt body = .error .unsupportedBodyFormat) := by
+  refine ⟨fun h => by subst h; rfl, ?_, ?_, ?_⟩
+  · intro hne hf; subst hf
+    have : body.isEmpty = false := by cases body <;> simp_all
+    simp [decodeBody, this, fmtRaw, fmtJson, fmtBeve, fmtUtf8]
+  · intro hne hf s hs; subst hf
+    have : body.isEmpty = false := by cases body <;> simp_all
+    simp [decodeBody, this, fmtJson, fmtBeve, fmtUtf8, hs]
+  · intro hne h0 h1 h2 h3
+    have : body.isEmpty = false := by cases body <;> simp_all
+    simp [decodeBody, this, h0, h1, h2, h3]
+
+/-- A request through the mounted handler IS `dispatch` at the stripped pointer with the decoded body –
+same new registry, the value or the error's code as the response. -/
+theorem mount_handle_is_dispatch (d : Decoders) (code : RErr → Nat) (nf : Nat) (r : Bool) (reg : Reg)
+    (pre path ptr : List Char) (fmt : Nat) (body : Bytes) (b : Option J)
+    (hp : pointerFor pre path = some ptr) (hb : decodeBody d fmt body = .ok b) :
+    reg.handleAt d code nf r pre path fmt body =
+      ((reg.dispatch r ptr b).1, respond code (reg.dispatch r ptr b).2) := by
+  simp [Reg.handleAt, hp, hb]
+
+/-- Through the mount, too, an empty body never mutates (whatever its format code), and neither does a
+request that is not below the prefix or whose body does not decode; the latter two are answered
+MethodNotFound and the decode error's code (InvalidBody by `body_format_codes`). -/
+theorem mount_never_mutates_without_body (d : Decoders) (code : RErr → Nat) (nf : Nat) (r : Bool) (reg : Reg)
+    (pre path : List Char) (fmt : Nat) (body : Bytes) :
+    (body = [] → (reg.handleAt d code nf r pre path fmt body).1 = reg) ∧
+    (pointerFor pre path = none → reg.handleAt d code nf r pre path fmt body = (reg, ⟨nf, none⟩)) ∧
+    (∀ ptr e, pointerFor pre path = some ptr → decodeBody d fmt body = .error e →
+      reg.handleAt d code nf r pre path fmt body = (reg, ⟨code e, none⟩)) := by
+  refine ⟨?_, fun h => by simp [Reg.handleAt, h], fun ptr e hp he => by simp [Reg.handleAt, hp, he]⟩
+  intro hb; subst hb
+  unfold Reg.handleAt
+  cases hp : pointerFor pre path with
+  | none => rfl
+  | some ptr => simp [decodeBody, Reg.dispatch]
+
+example : decodeBody ⟨fun _ => none, fun _ => none, fun _ => none⟩ 999 [] = .ok none ∧
+    decodeBody ⟨fun _ => none, fun _ => none, fun _ => none⟩ 999 [1] = .error .unsupportedBodyFormat ∧
+    (pointerFor ['/', 'a'] ['/', 'a', '/', 'b'] = some ['/', 'b']) := ⟨rfl, rfl, by decide⟩
+
+/-! ### composition with C07 (the router) -/
+
+/-- The mount rules of this model are C07's: same prefix normalisation, same match test, same
+`pointer_for`; and the prefix list this model mounts IS a C07 router built by `with_registry` calls –
+`Router::get` of that router, with the extracted lookup order, selects the mount `routerFind` selects. -/
+theorem mount_rules_are_the_router_model (pre path : List Char) (prefixes : List (List Char)) (h : Nat) :
+    normalizePrefix pre = Router.normRegistryPrefix pre ∧
+    entryMatches pre path = Router.mountMatches pre path ∧
+    pointerFor pre path = Router.pointerFor pre path ∧
+    ((Router.Router.run Gen.routerFacts {} (prefixes.map fun p => Router.Op.registry p h)).get
+        Gen.routerFacts path).map (·.pre) = routerFind prefixes path :=
+  ⟨normalizePrefix_eq_router pre, entryMatches_eq_router pre path, pointerFor_eq_router pre path,
+   routerFind_eq_router_get prefixes h path⟩
+
+/-- COMPOSITION (uses `C07.get_mount_sound`, `C07.mount_matches_iff`, `C07.pointer_for_strips_only_prefix`):
+for ANY router history of C07's model – exact routes, struct mounts, middleware, several registries –
+whenever `Router::get path` selects a registry mount, that mount's handler does not answer "not below
+prefix": it dispatches the registry at the pointer obtained by removing exactly the mount's prefix, with
+the decoded body, and answers with that dispatch's value or error code. -/
+theorem routed_request_is_dispatch (rt : Router.Router) (path : List Char) (f : Router.Found)
+    (hget : rt.get Gen.routerFacts path = some f) (hc : f.coll = .registries)
+    (d : Decoders) (code : RErr → Nat) (nf : Nat) (r : Bool) (reg : Reg) (fmt : Nat) (body : Bytes)
+    (b : Option J) (hb : decodeBody d fmt body = .ok b) :
+    ∃ ptr, pointerFor f.pre path = some ptr ∧
+      reg.handleAt d code nf r f.pre path fmt body =
+        ((reg.dispatch r ptr b).1, respond code (reg.dispatch r ptr b).2) ∧
+      ((f.pre = [] ∧ ptr = if path = [] then ['/'] else path) ∨ (f.pre ≠ [] ∧ path = f.pre ∧ ptr = ['/']) ∨
+       (f.pre ≠ [] ∧ path ≠ f.pre ∧ path = f.pre ++ ptr ∧ ∃ rest, ptr = '/' :: rest)) := by
+  have hne : f.coll ≠ .exact := by rw [hc]; decide
+  have hm := (C07.get_mount_sound rt path f hget hne).2
+  have hmm : Router.mountMatches f.pre path = true := (C07.mount_matches_iff f.pre path).mpr hm
+  have hsome := (C07.pointer_for_strips_only_prefix f.pre path).1
+  rw [hmm] at hsome
+  cases hp : Router.pointerFor f.pre path with
+  | none => simp [hp] at hsome
+  | some ptr =>
+    have hp' : pointerFor f.pre path = some ptr := by rw [pointerFor_eq_router]; exact hp
+    exact ⟨ptr, hp', mount_handle_is_dispatch d code nf r reg f.pre path ptr fmt body b hp' hb,
+      (C07.pointer_for_strips_only_prefix f.pre path).2 ptr hp⟩
+
+example : ((Router.Router.run Gen.routerFacts {}
+    [.route ['/', 'x'] 1, .registry ['a', 'p', 'i', '/'] 2, .struct ['/', 's'] 3]).get Gen.routerFacts
+      ['/', 'a', 'p', 'i', '/', 'k']).map (fun f => (f.coll, f.pre)) = some (.registries, ['/', 'a', 'p', 'i']) := by
+  decide
+
 /-! ### `src/json_pointer.rs` -/
 
 /-- On every well-formed pointer (leading `/`, tokens the strict scanner accepts) the replace-based
@@ -366,14 +555,15 @@ theorem json_pointer_evaluate (v : J) (segs : List Tok) :
 /-- Facts re-extracted from the source: every public method except the body-bearing dispatch takes
 the lock exactly once, as its first statement, and holds it to the end (one critical section = one
 atomic step of the model); the read-only dispatch is one read-lock block; the body-bearing dispatch
-reads the function map in its own read-lock block and only then takes the write lock;
+reads the function map in its own read-lock block and only then takes the write lock – once, held over the
+whole mutation (`writeSectionSingle`);
 `serde_json::Map` is sorted (no `preserve_order`). -/
 theorem lock_region_facts :
     Gen.Registry.singleSection.all (·.2) = true ∧
     Gen.Registry.singleSection.map (·.1) =
       ["set_root", "register_value", "merge_root", "merge_at", "register_function_arc", "read_value"] ∧
     Gen.Registry.readDispatchSingleSection = true ∧ Gen.Registry.lookupThenWriteLock = true ∧
-    Gen.Registry.mapSorted = true := by decide
+    Gen.Registry.writeSectionSingle = true ∧ Gen.Registry.mapSorted = true := by decide
 
 /-- Every API call that is one critical section is linearizable by construction: any schedule made
 of such calls only (any number of threads, any interleaving) IS a sequential execution – same
